@@ -436,6 +436,12 @@ REAL_IMPLS = {
         (v.bit_length() + 8) // 8 if v > 0 else ((v + 1).bit_length() + 8) // 8 if v < 0 else 0)
     if abs(v) < (1 << 4096) else None,
     'upper_b': lambda b: bytes(b).upper(),
+    # spec functions of the mpint contracts (builtins_model): the replay uses the real CPython operations
+    'pow2': lambda k: (1 << k) if 0 <= k < 40000 else None,
+    'bitlen': lambda v: v.bit_length() if abs(v) < (1 << 40000) else None,
+    'sbe': lambda n, v: v.to_bytes(n, 'big', signed=True)
+    if 0 <= n < 5000 and (v == 0 if n == 0 else -(1 << (8 * n - 1)) <= v < (1 << (8 * n - 1))) else None,
+    'sunbe': lambda b: int.from_bytes(bytes(b), 'big', signed=True),
     'lower_s': lambda s_: s_.lower(), 'strip_s': lambda s_: s_.strip(),
     'int_literal_ok_s': lambda s_: _int_literal(s_) is not None,
     'int_literal_val_s': lambda s_: _int_literal(s_),
